@@ -231,6 +231,28 @@ pub fn run_c07(args: &Args) -> i32 {
     )
 }
 
+/// replay of a fatal signal seen by a main-process check: run the recorded case in a child process
+/// of the shipped flavour and see whether it dies again
+pub fn replay_fatal(case: &Value) -> Vec<Divergence> {
+    let wc = &case["worker_case"];
+    if wc.is_null() {
+        return vec![];
+    }
+    let exe = std::env::current_exe().unwrap_or_else(|e| machinery_failure(&format!("current_exe: {e}")));
+    let out = Command::new(exe)
+        .args(["worker-case", &wc.to_string()])
+        .env("VCHECK_WORKER", "1")
+        .stdin(Stdio::null())
+        .output()
+        .unwrap_or_else(|e| machinery_failure(&format!("cannot start replay child: {e}")));
+    let stderr = String::from_utf8_lossy(&out.stderr);
+    if out.status.code() != Some(0) || stderr.contains("C07-ABORT") || stderr.contains("C07-PANIC") {
+        vec![Divergence::new("fatal-signal-in-implementation", format!("the recorded case crashes a child process again (status {:?})", out.status.code()))]
+    } else {
+        vec![]
+    }
+}
+
 /// replay: re-run the recorded case in the trapping flavour
 pub fn replay_c07(case: &Value) -> Vec<Divergence> {
     let wc = case["worker_case"].as_str().unwrap_or("");
@@ -272,10 +294,23 @@ pub fn extremal(tier: Tier) -> u64 {
         "r3k2r/pppppppp/8/8/8/8/PPPPPPPP/R3K2R w KQkq - 0 1",
         "7k/5Q2/6K1/8/8/8/8/8 b - - 0 1",
         "4k3/8/8/8/8/8/8/4K2R w K - 9999 9999",
+        // over-full sides (17-19 mobile pieces, 17/15 split with two ep capturers): a correct tree
+        // rejects these; if any validation lets them through, move generation needs more than the
+        // 18 move-list entries
+        "4k3/8/8/8/NNNNNNNN/NNNNNNNN/NN6/4K3 w - - 0 1",
+        "4k3/nn6/nnnnnnnn/nnnnnnnn/8/8/8/4K3 b - - 0 1",
+        "4k3/8/8/8/NNNNNNNN/NNNNNNNN/8/4K3 w - - 0 1",
+        "4k3/8/nnnnnnnn/nnnnnnnn/8/8/8/4K3 b - - 0 1",
+        "4k3/8/8/8/NNNNNNNN/NNNNNNNN/8/4K3 b - - 0 1",
+        "4k3/8/nnnnnnnn/nnnnnnnn/8/8/8/4K3 w - - 0 1",
+        "r3k2r/pp1p1ppp/2n5/2b2b2/2pPp1n1/2N2N2/PPP1PPPP/RNBQKB1R b KQkq d3 0 1",
+        "rnbqkb1r/ppp1pppp/2n2n2/2PpP1N1/2B2B2/2N5/PP1P1PPP/R2QK2R w KQkq d6 0 1",
+        "rnbqkbnr/pppppppp/8/8/8/8/PPPPPPPP/RNBQKBNR w KQkq - 0 1",
     ];
     for f in odd_but_accepted {
         set_case(|| json!({"property": "C06", "case": {"kind": "bytes", "hex": f.bytes().map(|b| format!("{b:02x}")).collect::<String>()}}).to_string());
         if let Ok(b) = parse_board(f) {
+            // one ply further for the opponent of an over-full side
             n += exercise(&b, 2);
             // and a short search on each
             let mut e = Engine::default();
